@@ -203,17 +203,40 @@ class ProgressConfig:
 _progress_counter = None
 
 
+# Progress reporting is best effort: a process that is killed while it updates
+# the shared counter leaves the counter's lock held forever, so nobody may wait
+# for that lock without a time limit (the other workers would never finish, and
+# the failure would never be reported).
+PROGRESS_LOCK_TIMEOUT = 2
+_progress_lock_lost = False
+
+
 def update_progress(inc):
+    global _progress_lock_lost
     # If the _progress_counter has not been set we are working in a
     # synchronous non-progress tracking context
-    if _progress_counter is not None:
-        with _progress_counter.get_lock():
-            _progress_counter.value += inc
+    if _progress_counter is not None and not _progress_lock_lost:
+        lock = _progress_counter.get_lock()
+        if lock.acquire(timeout=PROGRESS_LOCK_TIMEOUT):
+            try:
+                _progress_counter.value += inc
+            finally:
+                lock.release()
+        else:
+            _progress_lock_lost = True
 
 
 def get_progress():
-    with _progress_counter.get_lock():
-        val = _progress_counter.value
+    global _progress_lock_lost
+    lock = _progress_counter.get_lock()
+    if not _progress_lock_lost and lock.acquire(timeout=PROGRESS_LOCK_TIMEOUT):
+        try:
+            val = _progress_counter.value
+        finally:
+            lock.release()
+    else:
+        _progress_lock_lost = True
+        val = _progress_counter.get_obj().value
     return val
 
 
